@@ -38,6 +38,14 @@ def c17(ctx):
              "C03.R1) and Val::negate on a number is the f64 negation -(x) (term anchor): `0 - x` differs from it on zero")
     from .c03 import unary_rule
     unary_rule(ctx, "C17.R4")
+    rep.rule("C17.R5", "the interpreter's side of literals and of printing: a literal evaluates to itself (C03.R7 literal table: a string "
+             "literal to exactly its text, a number to itself) and a number is printed by the f64's own Display (C03.R8: no float-to-integer "
+             "cast becomes text) -- the folders report the literal / the f64, so an interpreter that unescapes strings or prints through "
+             "an integer disagrees with them")
+    from .c03 import leaves_rule as _leaves
+    from .c18 import text_from_cast_rule as _tfc
+    _leaves(ctx, "C17.R5")
+    _tfc(ctx, "C17.R5", scope=lambda fn: fn.file.startswith("src/exec/"), min_fns=60)
     ng = kind_rules.tables(ctx).fn("negate")
     if ng is not None:
         got = {kt.term(o.ret) for o in kind_rules.tables(ctx).I.run(ng, [kt.mk("Number", "self")])}
